@@ -649,7 +649,20 @@ pub fn corrupt(rng: &mut Rng, msg: &[u8]) -> (Vec<u8>, &'static str) {
         v.push(b'A');
     }
     let pos = rng.usize(v.len());
-    match rng.usize(15) {
+    match rng.usize(16) {
+        15 => {
+            // a complete, well-formed multi-byte UTF-8 character (still non-ASCII bytes outside block data)
+            let ch: &[u8] = *rng.pick(&[&b"\xc2\xb5"[..], b"\xc3\xa9", b"\xe2\x82\xac", b"\xf0\x9f\x98\x80", b"\xc2\xb0", b"\xce\xa9"]);
+            // preferably inside a quoted string, where a lenient reader would be tempted to let it through
+            let at = match v.iter().position(|c| *c == b'\'' || *c == b'"') {
+                Some(q) if rng.chance(2, 3) => q + 1,
+                _ => pos,
+            };
+            for (i, b) in ch.iter().enumerate() {
+                v.insert(at + i, *b);
+            }
+            (v, "insert-utf8-character")
+        }
         14 => {
             // an expression holding what 488.2 7.7.7.2 excludes: quoted text (also with separators and parentheses
             // between the quotes), nested parentheses, `;` - put in a unit of its own in front of the message
